@@ -109,6 +109,14 @@ def cases(rng, tier):
             t = rng.randint(0, 100000) * mpq / (1e6 * ppq)
         else:
             t = float(rng.randint(0, 600))
+        if rng.random() < 0.25:
+            # exact ties: with mpq = 500000 * 2^a and ppq a power of two the tick image 2*ppq*t/2^a of a dyadic t
+            # is computed exactly in binary64, so round-half-even is decided by the rounding rule alone
+            a = rng.randint(0, 2)
+            mpq = 500000 * 2 ** a
+            ppq = 2 ** rng.randint(0, 9)
+            k = rng.randint(-50, 5000)
+            t = (k + 0.5) * 2 ** a / (2.0 * ppq)
         yield {"k": "s2t", "t": t, "mpq": mpq, "ppq": ppq, "arr": rng.random() < 0.3}
         yield {"k": "t2s", "tick": rng.randint(0, 10**7), "mpq": mpq, "ppq": ppq, "arr": rng.random() < 0.3}
     # 11. frequency <-> pitch (oracle only)
@@ -331,20 +339,25 @@ def evaluate(d):
     elif k == "s2t":
         t, mpq, ppq = d["t"], d["mpq"], d["ppq"]
         exact = Fraction(10**6) * ppq * Fraction(*float(t).as_integer_ratio()) / mpq
-        if d["arr"]:
-            r, e = call(M.seconds_to_midi_ticks, np.array([t, t]), mpq, ppq)
-            if not e:
-                if not (isinstance(r, np.ndarray) and r.shape == (2,) and r[0] == r[1] and np.issubdtype(r.dtype, np.integer)):
-                    ev.oracle.append("seconds_to_midi_ticks(array) returned %r" % (r,))
-                r = int(r[0])
-        else:
-            r, e = call(M.seconds_to_midi_ticks, t, mpq, ppq)
+        ra, ea = call(M.seconds_to_midi_ticks, np.array([t, t]), mpq, ppq)
+        rs, es = call(M.seconds_to_midi_ticks, t, mpq, ppq)
+        if not ea:
+            if not (isinstance(ra, np.ndarray) and ra.shape == (2,) and ra[0] == ra[1] and np.issubdtype(ra.dtype, np.integer)):
+                ev.oracle.append("seconds_to_midi_ticks(array) returned %r" % (ra,))
+            ra = int(ra[0])
+        if not ea and not es and ra != rs:
+            ev.oracle.append("seconds_to_midi_ticks: scalar and array disagree for t=%r mpq=%d ppq=%d: %r vs %r" % (t, mpq, ppq, rs, ra))
+        r, e = (ra, ea) if d["arr"] else (rs, es)
         if e:
             ev.oracle.append("seconds_to_midi_ticks(%s%r, mpq=%d, ppq=%d) raised %r" % ("array " if d["arr"] else "", t, mpq, ppq, e))
         else:
             fl = math.floor(exact)
             frac = exact - fl
-            if abs(frac - Fraction(1, 2)) < Fraction(1, 10**6):
+            # the implementation evaluates 1e6 * ppq * t / mpq in binary64; when that evaluation is exact a tie is a
+            # real tie and the rounding rule (half to even) decides: compare with the model strictly
+            fval = 1e6 * ppq * t / mpq
+            float_exact = Fraction(*float(fval).as_integer_ratio()) == exact
+            if abs(frac - Fraction(1, 2)) < Fraction(1, 10**6) and not float_exact:
                 # binary64 evaluation may land on either side: only demand a nearest integer
                 if r not in (fl, fl + 1):
                     ev.oracle.append("ticks %r not nearest to %s" % (r, float(exact)))
@@ -353,6 +366,8 @@ def evaluate(d):
                 ev.impl.append(W.f_int(r))
                 if abs(r - exact) > Fraction(1, 2):
                     ev.oracle.append("ticks %r is not round(%s)" % (r, float(exact)))
+                elif frac == Fraction(1, 2) and r % 2 != 0:
+                    ev.oracle.append("ticks: round(%s) must go to the even neighbour (numpy/Python round), got %r" % (float(exact), r))
             key = "s2t"
     elif k == "t2s":
         tick, mpq, ppq = d["tick"], d["mpq"], d["ppq"]
